@@ -11,7 +11,7 @@
 //   k_rot_divider  : cell matching: node (q*nmult+r) of the refined grid is the centre of sub-cell r of parent cell q =
 //                    the parent's coordinate function at q shifted by -1/2 + (r+1/2)/nmult meshes; point matching:
 //                    refined node q*nmult is parent node q; node counts and meshes
-// VF_ISO: the same factor in both directions (nmult0 == nmult1); without it the factors differ (nmult0 != nmult1).
+// One entry per pair of factors (nmult0, nmult1) in 1..3 (k_rot_multiple_<nmult0><nmult1>, k_rot_divider_<nmult0><nmult1>).
 // Exact (real) arithmetic reading of the code.
 #include "vf.h"
 #include "Basic/Grid.hpp"
@@ -20,9 +20,6 @@
 #include <math.h>
 #ifndef VF_NXMAX
 #define VF_NXMAX 1024
-#endif
-#ifndef VF_MULTMAX
-#define VF_MULTMAX 3
 #endif
 #ifdef VF_NATIVE
 static bool req(double a, double b)
@@ -100,18 +97,6 @@ static Grid* derived_grid(const VectorInt& nxo, const VectorDouble& dxo, const V
   c->setRotationByAngle(angle);
   return c;
 }
-static void draw_factors(int nm[2], VectorInt& nmult)
-{
-  nm[0] = vf_range(1, VF_MULTMAX);
-  nm[1] = vf_range(1, VF_MULTMAX);
-#ifdef VF_ISO
-  vf_assume(nm[0] == nm[1]);
-#else
-  vf_assume(nm[0] != nm[1]);
-#endif
-  nmult[0] = nm[0];
-  nmult[1] = nm[1];
-}
 static void coords(const Grid* g, const int ind[2], const double* percent, double out[2])
 {
   VectorDouble c(2);
@@ -123,13 +108,14 @@ static void coords(const Grid* g, const int ind[2], const double* percent, doubl
   out[1] = c[1];
 }
 
-extern "C" void k_rot_multiple()
+template <int NM0, int NM1> static void t_multiple()
 {
   Grid* g = make_grid();
   bool flagCell = vf_nondet_bool();
   VectorInt nmult(2);
-  int nm[2], k[2];
-  draw_factors(nm, nmult);
+  int nm[2] = {NM0, NM1}, k[2];
+  nmult[0] = NM0;
+  nmult[1] = NM1;
   for (int d = 0; d < 2; d++) k[d] = vf_range(0, VF_NXMAX); // any coarse node
   VectorInt nxo(2);
   VectorDouble dxo(2), x0o(2);
@@ -165,18 +151,18 @@ extern "C" void k_rot_multiple()
   vf_witness();
 }
 
-extern "C" void k_rot_divider()
+template <int NM0, int NM1> static void t_divider()
 {
   Grid* g = make_grid();
   bool flagCell = vf_nondet_bool();
   VectorInt nmult(2);
-  int nm[2], q[2], r[2];
-  draw_factors(nm, nmult);
+  int nm[2] = {NM0, NM1}, q[2], r[2];
+  nmult[0] = NM0;
+  nmult[1] = NM1;
   for (int d = 0; d < 2; d++)
   {
-    q[d] = vf_range(0, VF_NXMAX);         // any parent cell / node
-    r[d] = vf_range(0, VF_MULTMAX - 1);   // sub-cell of the parent cell
-    vf_assume(r[d] < nm[d]);
+    q[d] = vf_range(0, VF_NXMAX);  // any parent cell / node
+    r[d] = vf_range(0, nm[d] - 1); // sub-cell of the parent cell
   }
   VectorInt nxo(2);
   VectorDouble dxo(2), x0o(2);
@@ -208,3 +194,9 @@ extern "C" void k_rot_divider()
   }
   vf_witness();
 }
+// one entry per pair of factors (compile-time constants)
+#define ENT(A, B)                                                        \
+  extern "C" void k_rot_multiple_##A##B() { t_multiple<A, B>(); }        \
+  extern "C" void k_rot_divider_##A##B() { t_divider<A, B>(); }
+ENT(1, 1) ENT(2, 2) ENT(3, 3)
+ENT(1, 2) ENT(1, 3) ENT(2, 1) ENT(2, 3) ENT(3, 1) ENT(3, 2)
